@@ -317,6 +317,13 @@ func (g *G) NSTree(hasNS bool) *xdoc.Doc {
 	d := xdoc.NewDoc()
 	d.HasNS = hasNS
 	prefixes := []string{"", "p", "q", "r", "p2"}
+	names, attrNames := Names, AttrNames
+	if g.R.Intn(4) == 0 {
+		// every character an NCName may contain: full stop, hyphen, underscore, digits, non-ASCII letters
+		prefixes = []string{"", "p.q", "q-1", "r_", "p2"}
+		names = []string{"a.b", "b-1", "c_2", "\u00e91", "a", "a.b.c"}
+		attrNames = []string{"id", "x.y", "k-1"}
+	}
 	// binding of each prefix to a URI (or none) for this document
 	bind := map[string]string{}
 	for _, p := range prefixes {
@@ -340,10 +347,10 @@ func (g *G) NSTree(hasNS bool) *xdoc.Doc {
 		for i := 0; i < k && budget > 0; i++ {
 			budget--
 			p := prefixes[g.R.Intn(len(prefixes))]
-			e := n.AddElem(p, Names[g.R.Intn(len(Names))], bind[p])
+			e := n.AddElem(p, names[g.R.Intn(len(names))], bind[p])
 			for j := g.R.Intn(3); j > 0; j-- {
 				ap := prefixes[g.R.Intn(len(prefixes))]
-				an := AttrNames[g.R.Intn(len(AttrNames))]
+				an := attrNames[g.R.Intn(len(attrNames))]
 				dup := false
 				for _, a := range e.Attrs {
 					if a.Name == an && (a.Prefix == ap || (hasNS && a.NS == bind[ap] && ap != "" && a.Prefix != "")) {
